@@ -1,8 +1,9 @@
-package props
+package c07
 
 import (
 	"github.com/trajectoryjp/spatial_id_go/v4/operated"
 
+	. "verif/harness/gen"
 	"verif/harness/run"
 	w "verif/harness/wire"
 )
@@ -28,7 +29,7 @@ func fnShiftLaws() *run.Fn {
 	}}
 }
 
-func (g *Gen) hShift(h int64) int64 {
+func hShift(g *Gen, h int64) int64 {
 	ww := int64(1) << uint(h)
 	switch g.Intn(8) {
 	case 0:
@@ -42,7 +43,7 @@ func (g *Gen) hShift(h int64) int64 {
 	}
 	return g.Int63n(8*ww+1) - 4*ww
 }
-func (g *Gen) vShift() int64 {
+func vShift(g *Gen) int64 {
 	switch g.Intn(5) {
 	case 0:
 		return 0
@@ -60,20 +61,20 @@ func init() {
 		r.Register(fnShift(), fnShiftLaws())
 		for i := 0; i < n; i++ {
 			id, h, _ := g.ValidEID()
-			tags := []string{tag("hzoom=%d", h)}
+			tags := []string{Tag("hzoom=%d", h)}
 			triv := false
 			if i%25 == 0 {
 				id = g.Malformed()
 				h = 1
 				tags = []string{"malformed"}
 			}
-			dx, dy, dv := g.hShift(h), g.hShift(h), g.vShift()
+			dx, dy, dv := hShift(g, h), hShift(g, h), vShift(g)
 			if dx == 0 && dy == 0 && dv == 0 {
 				triv = true
 			}
 			if i%3 == 0 {
 				r.Run(run.Case{Prop: "C07", Fn: "ShiftLaws", Tags: append(tags, "laws"), Trivial: triv,
-					Args: []w.Val{w.S(id), w.I(dx), w.I(dy), w.I(dv), w.I(g.hShift(h)), w.I(g.hShift(h)), w.I(g.vShift())}})
+					Args: []w.Val{w.S(id), w.I(dx), w.I(dy), w.I(dv), w.I(hShift(g, h)), w.I(hShift(g, h)), w.I(vShift(g))}})
 			} else {
 				r.Run(run.Case{Prop: "C07", Fn: "GetShiftingSpatialID", Tags: tags, Trivial: triv,
 					Args: []w.Val{w.S(id), w.I(dx), w.I(dy), w.I(dv)}})
